@@ -6,7 +6,7 @@ import props.audio_common as ac
 
 MANIFEST = {
     "level": "proof",
-    "text": "Countdown contracts on the three real tickTimer functions (one call per clock cycle): the waveform steps exactly when the timer is zero and the timer is then reloaded with P-1, otherwise it only decrements, with P = 4*(2048-f) for channels 1-2, 2*(2048-f) for channel 3 (only while enabled) and d(r)*2^s for channel 4 (d = 8,16,32,...,112) - for all 2048 frequencies and all NR43 values symbolically; a ranking-function lemma over that contract gives consecutive steps exactly P calls apart. The step itself is proved: duty index +1 mod 8, wave position +1 mod 32 with the sample buffer taken from the right nibble, LFSR step equal to the specification function lfsr15 (lfsr7 with NR43 bit 3) for every 16-bit state; trigger reloads the timers with P and sets the LFSR to all ones. That the specification functions produce the maximal sequences (output period 32767, resp. 127) is computed once by iterating the spec (a finite, complete fact about the oracle).",
+    "text": "Countdown contracts on the three real tickTimer functions (one call per clock cycle): the waveform steps exactly when the timer is zero and the timer is then reloaded with P-1, otherwise it only decrements, with P = 4*(2048-f) for channels 1-2, 2*(2048-f) for channel 3 (only while enabled) and d(r)*2^s for channel 4 (d = 8,16,32,...,112) - for all 2048 frequencies and all NR43 values symbolically; a ranking-function lemma over that contract gives consecutive steps exactly P calls apart. The step itself is proved: duty index +1 mod 8, wave position +1 mod 32 with the sample buffer taken from the right nibble, LFSR step equal to the specification function lfsr15 (lfsr7 with NR43 bit 3) for every 16-bit state; trigger reloads the timers with P and sets the LFSR to all ones. That the specification functions produce the maximal sequences (output period 32767, resp. 127) is computed once by iterating the spec (a finite, complete fact about the oracle). tickSweep is verified against the documented sweep: the channel frequency is replaced only when the timer expires with a non-zero period, the new value fits in 11 bits and the shift is non-zero.",
     "note": "Trusted: go/ssa, engine semantics, z3. tickClock's one-call-per-clock scheduling of the tickTimers is part of C20's tickClock obligations (tickTimer is skipped in the machine cycle of a trigger, as the code documents).",
     "technique": "function contracts against spec functions + ranking lemma + finite orbit computation of the spec; z3",
     "design_ref": "DESIGN.md section 4 C21",
@@ -20,6 +20,8 @@ def tasks(ctx):
           Task("(*audio.square).trigger", "(*audio.square).trigger", keep=KEEP), Task("(*audio.wave).trigger", "(*audio.wave).trigger", keep=KEEP),
           Task("(*audio.noise).trigger", "(*audio.noise).trigger", keep=KEEP),
           Task(ac.A + "tickTimer", ac.A + "tickTimer", overrides=ac.OV, keep=keep_labels({"ch1", "ch2", "ch3", "ch4", "ok"})),
+          # the frequency a channel runs at is the one written to NRx3/NRx4 unless the sweep unit replaces it as documented
+          Task("(*audio.square).tickSweep", "(*audio.square).tickSweep", keep=keep_labels({"freq", "shadow", "timer", "idle"})),
           LemmaTask("lemma:lfsr-and-period", ac.lfsr_spec_orbit, ["spec lfsr15/lfsr7 (oracle orbit)", "tickTimer (contract-level period lemma)"])]
     return filter_tasks(ts)
 
